@@ -281,6 +281,10 @@ def main(tier):
         if t[0][2] is None:
             pass
     tasks = [((s[0], s[1], s[2] or producers.BODY_KINDS, s[3]), l, o) for s, l, o in tasks]
+    # lines longer than the default --max-line-length
+    for coloured in (False, True):
+        tasks.append(((1, ["modified"], ["long"], coloured), "default", {}))
+        tasks.append(((1, ["modified"], ["long"], coloured), "line-numbers=on", {"line-numbers": True}))
     # plain `diff -u` sources: with `diff` lines, and several outputs concatenated without them
     for label, ov, k in configs:
         if k == 0 or tier == "thorough" and k == 1 or any(x in label for x in ("file-style", "line-buffer", "view")):
